@@ -23,7 +23,30 @@ def run_call(data, params, functions, targets=None, **kw):
     return ("frame", out, [(type(x.message).__name__, str(x.message)[:4000]) for x in w])
 
 
-def capture_graph(data, params, functions):
+def full_graph(data, params, functions):
+    """Graph of the default targets extended by every function of the environment that
+    is computable on its own from the documented input columns (Lohnsteuer, Erziehungsgeld
+    ... are not among the default targets).  Falls back to the default-target graph."""
+    graph, res = capture_graph(data, params, functions)
+    if graph is None or res[0] != "frame" or not isinstance(functions, dict):
+        return graph, res
+    extra = []
+    for n in sorted(functions):
+        if n in graph["parents"]:
+            continue
+        r = run_call(data, params, functions, targets=[n])
+        if r[0] == "frame":
+            extra.append(n)
+    if not extra:
+        return graph, res
+    g2, r2 = capture_graph(data, params, functions, targets=sorted(set(graph["order"]) | set(extra)))
+    if g2 is None or r2[0] != "frame":
+        return graph, res
+    g2["extra_targets"] = len(extra)
+    return g2, r2
+
+
+def capture_graph(data, params, functions, targets=None):
     """Run one ordinary default-target call with dags.dag.create_dag wrapped and return
     the executed graph: {"order": topological list of function nodes, "parents": {...},
     "roots": data columns used}.  Returns None if nothing could be captured."""
@@ -41,7 +64,7 @@ def capture_graph(data, params, functions):
 
     dags.dag.create_dag = wrapped
     try:
-        res = run_call(data, params, functions)
+        res = run_call(data, params, functions, targets=targets)
     finally:
         dags.dag.create_dag = orig
     if not captured:
